@@ -5,7 +5,13 @@ import (
 	"strings"
 )
 
+// extraFns: per-property extractors register themselves here (one extras_<prop>.go file each).
+var extraFns []func(fset *token.FileSet, repo string, b *strings.Builder)
+
 // extras: tables extracted from packages other than defaults (added per property).
 func extras(fset *token.FileSet, repo string, b *strings.Builder) {
 	extrasConfig(fset, repo, b) // C18: config.settingSetup (config.go)
+	for _, f := range extraFns {
+		f(fset, repo, b)
+	}
 }
